@@ -288,7 +288,7 @@ def run_worker(args):
 
 def correspondence(res):
     W = 14
-    n = 56 if res.tier == "quick" else 700
+    n = 56 if res.tier == "quick" else 224
     viols, _ = c02.parallel(res, run_worker, [(res.seed * 1000 + w, max(1, n // W)) for w in range(W)])
     res.coverage["rule"] = ("real fuzz() runs (schema grammars incl. computed repetitions x 1-3 generated constraints incl. nested quantifiers that "
                             "rebind scopes and local variables); EVERY evaluate_individual call of the search is followed by an evaluation of the same "
